@@ -1,13 +1,88 @@
 # table of claimed properties: id -> (technique, level text, level note). Read by gen_manifest.py.
 NOT_APPLICABLE = {}
-NOTES = ("All checks are property-based tests (pgregory.net/rapid) run by ./check inside a scratch copy of /repo's working tree. "
+NOTES = ("All checks are property-based tests (pgregory.net/rapid v1.3.0) run by ./check inside a scratch copy of /repo's working tree, one watched worker process per shard. "
          "Exit 0 = held on everything explored, 1 = VIOLATION line, 2 = inconclusive/infrastructure (never a VIOLATION line). "
          "Genuine defects found at the pinned commit were repaired by 'fix:' commits in /repo and are listed as 'fixed' in known_findings.json; "
-         "defects that are not small to repair are listed there as 'known' and reported as KNOWN-FINDING lines.")
+         "defects that are not small to repair are listed there as 'known', excluded from generation by construction (counted in the evidence) and reported as KNOWN-FINDING lines. "
+         "VERIF_SEED selects the rapid seeds of all shards (sha256 of seed/property/test/shard); native coverage-guided fuzzing is not part of the registered commands (it cannot be pinned to a seed).")
+BASE = "Exploration (generated search with shrinking) is the level this family of technique gives: the property quantifies over all inputs/configurations, which has no finite model; "
 CLAIMED["C01"] = (
-    "property-based testing (rapid): generated multigraphs x full option grid, oracle = returns + finite output, process-isolated workers with watchdog and journal",
-    "Generated search over edge lists (7 graph families, unions, adversarial IDs) and the documented option grid; each case runs in a watched worker process "
-    "(recovered panics shrink through rapid; stack overflow / heap or wall-clock budget hits are taken from the journal, confirmed twice in isolation and minimised out of process). "
-    "Exploration is the right level: the property is 'never crashes on any input', which has no finite model; it can only be searched.",
-    "Budget: 60 s wall / 2 GiB live heap per case for graphs up to 60 nodes / 120 edges (measured worst case about 10 s). Splines outside the spline-safe domain D_S are excluded by construction (known finding K3).",
-)
+    "property-based testing (rapid): generated multigraphs x full option grid; oracle = Layout returns + finite output; process-isolated workers with wall-clock/heap watchdog and journal",
+    BASE + "each case runs in a watched worker (recovered panics shrink through rapid; stack overflow / budget hits are taken from the journal, confirmed twice in isolation and minimised out of process).",
+    "Budget per case: 180 s wall / 2 GiB live heap for graphs up to 60 nodes / ~3 edges per node (measured worst case about 11 s). NetworkSimplex positioner only up to 16 nodes / 24 edges (documented as unsuitable beyond a few dozen nodes). Splines outside the spline-safe domain D_S are excluded by construction (known finding K3).")
+CLAIMED["C02"] = (
+    "property-based testing (rapid): validity predicate on the returned node/edge multisets and sizes against the input and the size options",
+    BASE + "the oracle compares the returned ID multiset, edge multiset, per-node configured size (per-node > fixed > zero), self-loop routes and, with virtual output, the helper-node count against band spans.",
+    "With virtual-node output and user IDs that look like helper IDs the output cannot mark helpers (a todo in the source); there only what is decidable is asserted. K3 excluded.")
+CLAIMED["C03"] = (
+    "property-based testing (rapid): band structure derived from returned Y coordinates; validity predicate (band spacing, no flat edge, upward <=> ArrowHeadStart, acyclic => no upward edge)",
+    BASE + "bands are recomputed from the output alone (rank of Y per component, components by union-find on the input).",
+    "LayerSpacing > 0, as the property states. Tolerance 1e-9 relative on the spacing inequality.")
+CLAIMED["C04"] = (
+    "property-based testing (rapid): pairwise geometric validity predicate (same-band spacing, disjoint open rectangles, finite non-negative coordinates)",
+    BASE + "all pairs of returned nodes are compared, across components, helper nodes included when requested.",
+    "NetworkSimplex positioner: integer sizes/spacing and <= 12 nodes / 24 edges (its integer grid and cost). LayerSpacing > 0. Tolerance 1e-9 relative.")
+CLAIMED["C05"] = (
+    "property-based testing (rapid): validity predicate on first/last route point against the endpoint rectangles (bands from Y), arrowhead end at ToID",
+    BASE + "upper/lower endpoint are derived from the bands of the output, anchor points recomputed from X,Y,W,H.",
+    "LayerSpacing > 0; splines only inside D_S (K3). Tolerance 1e-9 relative on anchor coordinates.")
+CLAIMED["C06"] = (
+    "property-based testing (rapid): per-style validity predicate on route geometry (point counts vs band span, monotone y, bends outside node interiors, bends == helper nodes, axis-parallel segments, spline joints)",
+    BASE + "each style's geometric contract is checked on every routed edge of generated drawings with heterogeneous widths and heights.",
+    "Size-aware positioners, LayerSpacing > 0; splines only inside D_S (uniform heights), K3.")
+CLAIMED["C07"] = (
+    "property-based testing (rapid): repetition oracle (5 calls in-process on the same source and size map, DeepEqual, inputs compared with a snapshot) + per-case result digests compared between two fresh processes",
+    BASE + "Go re-randomises map iteration on every range statement, so repetition samples iteration orders; every shard is additionally run twice in separate processes and the per-case SHA-256 digests are compared.",
+    "Greedy+random excluded as the property states. A cross-process mismatch is reported with the case but replays only across two processes (./check C07 --replay runs the in-process oracle).")
+CLAIMED["C08"] = (
+    "property-based testing (rapid): metamorphic relation Layout(rename(G)) == rename(Layout(G)), exact, with renamings drawn from helper-like/empty/long/Unicode names",
+    BASE + "the relation needs no reference layout; helper-name collisions (V<n>, NE<i>) are generated on purpose and counted.",
+    "Presupposes determinism (C07). Greedy+random is pinned through hook H1.")
+CLAIMED["C09"] = (
+    "property-based testing (rapid): metamorphic relation part-alone == restriction of the union modulo one horizontal translation; extents disjoint and NodeSpacing apart for size-aware positioners",
+    BASE + "disjoint unions of 2-4 connected parts are built with a drawn interleaving; every part is laid out alone and compared node by node, edge by edge, helper nodes as a multiset.",
+    "Presupposes determinism (C07). X compared within 1e-9 relative (a shift is added), everything else exactly.")
+CLAIMED["C10"] = (
+    "property-based testing (rapid): per-instance optimality certificate (max-weight closure via max-flow on the tight-edge graph, LP duality) + feasibility + band contiguity; certificate self-tested against brute force",
+    BASE + "optimality is certified per instance rather than compared with a second solver; runs that hit the iteration cap (hook H2) are not judged for optimality, as the property provides.",
+    "Hook H2 (monitor event verif-ns-exit). The certificate is cross-checked against brute force on <= 6 nodes in every run (TestC10OracleSelfTest).")
+CLAIMED["C11"] = (
+    "property-based testing (rapid): differential against an independent longest-path-to-sink computation on the drawn orientation",
+    BASE + "band of every node vs. independent memoised longest-path heights; number of bands vs. 1 + longest path.",
+    "LayerSpacing > 0 (bands from Y).")
+CLAIMED["C12"] = (
+    "property-based testing (rapid): differential between the monitor's reported crossing count and a naive O(E^2) inversion count on the returned drawing; dedicated deep (>= 65 layers) and wide generators",
+    BASE + "the reference count is taken from the output (node centres and polyline bends, by x-order per adjacent band pair), so it also checks that the chosen order survives positioning and routing.",
+    "Simple graphs only, NodeSpacing > 0, LayerSpacing > 0, size-aware positioners, as stated. Geometric intersection is deliberately not the oracle (bends sit mid-band).")
+CLAIMED["C13"] = (
+    "small-scope exhaustive enumeration (all labelled rooted trees x all edge orders, n <= 5 quick / n <= 6 thorough) + property-based testing (rapid) on random trees up to 40 / 120 nodes; oracle = zero crossings",
+    BASE + "the small scope is enumerated completely (evidence lists it under exhaustive_subspaces); beyond it random trees of three shapes are searched.",
+    "Default layering, Polyline, size-aware positioners; geometric check only with uniform sizes.")
+CLAIMED["C14"] = (
+    "property-based testing (rapid) + small-scope exhaustive enumeration (all ordered edge lists of <= 4 edges on 3 nodes): single-edge irredundancy of the reversed set (DepthFirst), no reversal on acyclic inputs",
+    BASE + "the oracle is the property's own operational wording, evaluated with an independent cycle test on ID strings.",
+    "Set-minimality beyond the single-edge criterion is not asserted (not stated).")
+CLAIMED["C15"] = (
+    "property-based testing (rapid) of concurrent schedules under the Go race detector: k goroutines released by a barrier, GOMAXPROCS varied; oracle = no race report + DeepEqual with the sequential result",
+    BASE + "the race detector is happens-before based: it reports a conflicting pair whenever both accesses execute unordered, not only when the bad interleaving happens, so generated concurrent executions find shared-state races reliably.",
+    "The property's 'static enumeration of every package-level variable' is a different technique and is not attempted. A race report does not replay; the report is stored next to the replay file.")
+CLAIMED["C16"] = (
+    "property-based testing (rapid): validity predicate per band (extent == sum of widths + (n-1) spacing, leftmost x == 0, midpoints / right ends coincide) with helper nodes in the output",
+    BASE + "bands are the Y groups of the returned nodes of single-component inputs.",
+    "Tolerance 1e-9 relative (sums are associated differently). LayerSpacing > 0.")
+CLAIMED["C17"] = (
+    "property-based testing (rapid): metamorphic relation Layout(2^k * sizes, 2^k * spacings) == 2^k * Layout(sizes, spacings), bit-exact",
+    BASE + "multiplication by a power of two commutes exactly with +, -, max, min and /2, which is all these algorithms do with coordinates.",
+    "Presupposes determinism (C07). Positioners/routings as stated (no NetworkSimplex positioner, no splines).")
+CLAIMED["C18"] = (
+    "stateful property-based testing (rapid state machine): histories of monitored / unmonitored / panicking Layout calls; invariant over the history (events stamped with the executing call) + layout with monitor == without",
+    BASE + "the whole history shrinks as one value; panicking calls (empty graph, malformed edge after the monitor was installed, monitor's own Log panics) are part of the alphabet.",
+    "The monitor is process-global state; histories are sequential (concurrency with monitors is outside C15/C18 as stated).")
+CLAIMED["C19"] = (
+    "property-based testing (rapid) inside package geom: differential against an independent visibility-graph Dijkstra + segment-in-corridor predicate; oracle self-tested against a door-to-door dynamic programme",
+    BASE + "corridors are generated with every step type (equal edges, widening, narrowing, shifts) on grid and free-float coordinates.",
+    "Start/end position classes in which the pinned router is wrong (rectangle vertices, end inside/on the door line, start on the door line, interior start on a chord between corridor vertices) are known finding K1 and excluded by construction.")
+CLAIMED["C20"] = (
+    "property-based testing (rapid) inside package geom: validity predicate on FitSpline output (endpoints, joints, 400 samples per piece within 0.05 of the corridor, MergeRects polygon == corridor boundary) and a constructed-roots oracle for solve3",
+    BASE + "the fitter is fed exactly as the router feeds it; the root finder is compared with the roots its inputs were built from, with stated tolerances.",
+    "Excursions with the signature of known finding K2 (leave and re-enter through crossings the fitter ignores by design) are counted, not failed; ill-conditioned leading coefficients (known finding K4) are not judged for accuracy.")
